@@ -141,3 +141,13 @@ Example ex_matching_loop :
   length (filter (fun tr : triple => t_pos (snd tr)) (triples (terms_of g))) = 3 /\
   map (@length term) (fold_left (nstep (terms_of g)) (triples (terms_of g)) (terms_of g)) = [1; 1; 1].
 Proof. repeat split; vm_compute; reflexivity. Qed.
+
+(* odes_rest_equations on the 3-cycle with outputs and inputs: compartment 0 keeps only its output term,
+   compartment 1 only its input term *)
+Example ex_rest_equations :
+  let g := shape_graph (mkShape 3 [(0, 1); (1, 2); (2, 0)] [0; 2] [1] [0]) in
+  linear_distinct g = true /\ length (order g) = 3 /\
+  map (fun a => (map t_pos (out_term g a), map t_pos (input_terms g a))) [0; 1; 2]
+  = [([false], []); ([], [true]); ([false], [])] /\
+  map (fun l => map t_pos l) (fold_left (nstep (terms_of g)) (triples (terms_of g)) (terms_of g)) = [[false]; [true]; [false]].
+Proof. repeat split; vm_compute; reflexivity. Qed.
